@@ -446,6 +446,24 @@ func (p *Parser) checkNewVariableNameToken(token lexer.Token, ctx context) error
 	if exists {
 		return p.atError(fmt.Sprintf("variable %s has already been defined", name), token)
 	}
+	return p.checkImportNamespace(token, ctx)
+}
+
+// checkImportNamespace makes sure a name of the main file which is global for the target doesn't start with the prefix of
+// an imported file, because it would be the same name as a global of that file (e.g. mac65d3e_counter
+// in the main file and counter in the imported file with the prefix mac65d3e).
+func (p *Parser) checkImportNamespace(token lexer.Token, ctx context) error {
+	// Names of imported files are prefixed themselves and variables within functions are local.
+	if len(p.prefix) > 0 || ctx.findScope(SCOPE_FUNCTION) {
+		return nil
+	}
+	name := token.Value()
+
+	for prefix := range p.importedFiles {
+		if strings.HasPrefix(name, fmt.Sprintf("%s_", prefix)) {
+			return p.atError(fmt.Sprintf("name %s is reserved for the imported file with the prefix %s", name, prefix), token)
+		}
+	}
 	return nil
 }
 
@@ -1035,6 +1053,14 @@ func (p *Parser) evaluateVarDefinition(ctx context) (Statement, error) {
 		alreadyDefined := 0
 
 		for _, nameToken := range nameTokens {
+			err := p.checkImportNamespace(nameToken, ctx)
+
+			if err != nil {
+				return nil, err
+			}
+		}
+
+		for _, nameToken := range nameTokens {
 			err := p.checkNewVariableNameToken(nameToken, ctx)
 
 			if err != nil {
@@ -1411,6 +1437,11 @@ func (p *Parser) evaluateFunctionDefinition(ctx context) (Statement, error) {
 
 	if exists {
 		return nil, p.expectedError("unique function name", nameToken)
+	}
+	err := p.checkImportNamespace(nameToken, ctx)
+
+	if err != nil {
+		return nil, err
 	}
 	openingBrace := p.peek()
 	params := []Variable{}
